@@ -2,7 +2,10 @@
 import json
 import os
 
-from .. import core, frame, gen, lab, trees
+import re
+
+from .. import ambient, core, fault, frame, gen, lab, trees
+from ..decomp import decompose
 
 PROP = "C01"
 LOCKS = ["absent", "disabled_with_stale_lock", "consistent0", "consistent1", "consistent1000"]
@@ -40,8 +43,12 @@ def run_spec(built, seed, tier, spec):
         else:
             lock_text = core.lock_text(lockval)
     cfg = core.make_config(structured=True if spec["structured"] else None, use_cache=use_cache)
+    # ambient state (permission bits, mtimes, a stale Breadlog.lock.tmp, editor droppings) must not matter: same oracle
+    amb = ambient.choose(rnd, t.files, p=0.4, mx=mx,
+                         kinds=["stale_lock_tmp", "stale_lock_tmp", "ro_sources", "mtimes", "siblings", "mix"])
+    spec["ambient"] = amb["kind"]
     with core.Box(tag="c01") as box:
-        out = lab.run_tree(built, box, t.files, cfg, do_check=False, trace=False, lock=lock_text)
+        out = lab.run_tree(built, box, t.files, cfg, do_check=False, trace=False, lock=lock_text, ambient=amb)
     return t, out, mx, lockval
 
 
@@ -100,6 +107,7 @@ def work(job):
     c["exhausted_range_cases"] = int(info["exhausted"] and t.missing > 0)
     c["boundary_cases"] = int(spec["idclass"] in ("near_max", "mid", "zero"))
     c["exit_nonzero"] = int(out.edit.rc != 0)
+    c["ambient_" + spec.get("ambient", "plain")] = 1
     if (t.existing and info["inserted"] >= 2) or (info["exhausted"] and t.missing > 0):
         res["nontrivial"].append("%s|%s|%s|multi=%s|exh=%s" % (spec["idclass"], spec["lock"], spec["structured"],
                                                                spec["nfiles"] > 1, info["exhausted"]))
@@ -108,6 +116,7 @@ def work(job):
             "signature": "C01.%s|id=%s|lock=%s|%s" % (clause, spec["idclass"], spec["lock"].rstrip("0123456789"),
                                                       "structured" if spec["structured"] else "unstructured"),
             "detail": dict(detail, spec=spec, existing=sorted(set(t.existing))[-5:], missing=t.missing,
+                           stale_lock_tmp=out.amb["stale_lock_tmp"],
                            exit=out.edit.ended(), stdout_tail=out.edit.out[-300:]),
             "case": {"spec": spec}})
     if spec["i"] < 4:
@@ -128,6 +137,9 @@ def main(tier):
     bigjobs = [(built, ck.seed, i, nst, st, lm) for i, (nst, st, lm) in enumerate(
         [(3000, False, "absent"), (400, True, "disabled"), (900, False, "disabled")] + ([] if tier == "quick" else [(6000, False, "disabled"), (8000, True, "absent"), (150, False, "absent"), (1200, True, "absent")]))]
     for res in frame.pmap(bigfile_work, bigjobs):
+        ck.absorb(res)
+    fjobs = [(built, ck.seed, i, None) for i in range(60 if tier == "quick" else 900)]
+    for res in frame.pmap(fault_work, fjobs):
         ck.absorb(res)
     if tier == "thorough":
         # overflow sanitizer: the ID-boundary workload again on a build with overflow-checks=on
@@ -206,6 +218,74 @@ def bigfile_work(job):
     return res
 
 
+RE_EXISTING = re.compile(rb"\[ref: ([0-9]{1,10})\]|\bref = ([0-9]{1,10})\b")
+
+
+def fault_work(job):
+    """IDs written by a run in which one file failed: an I/O error at the k-th operation on a scratch file (every write,
+    create, close and rename of the clean run is a candidate) makes that file fail; the files the same run does rewrite
+    must still receive IDs that are unique and collide with nothing in the tree."""
+    built, seed, i, only = job
+    res = {"evaluations": 0, "nontrivial": [], "violations": [], "samples": [], "inconclusive": {}, "counters": {}}
+    rnd = core.rng_for("c01fault", seed, i)
+    structured = rnd.random() < 0.4
+    proj = fault.small_project(rnd, nfiles=rnd.choice([3, 4, 6]), stmts=(2, 7), structured=structured,
+                               use_cache=rnd.choice([None, False]), label="c01f%d" % i)
+    # long runs of ordinary code between the statements, so that one file is written with several write(2) calls
+    for rel in list(proj.files):
+        lines = proj.files[rel].split(b"\n")
+        proj.files[rel] = b"\n".join(l + (b"\n    // " + b"filler " * rnd.randrange(50, 3000) if b"!(" in l and rnd.random() < 0.6 else b"")
+                                      for l in lines)
+    existing = set()
+    for d in proj.files.values():
+        for m in RE_EXISTING.finditer(d):
+            existing.add(int(m.group(1) or m.group(2)))
+    ops, after, rec, exp, lock = fault.clean_reference(built, proj)
+    cand = [o for o in ops if fault.phase_of(o).startswith("tmp-") or fault.phase_of(o) == "rename"]
+    picks = rnd.sample(cand, min(len(cand), 14)) if only is None else [o for o in cand if o["n"] == only[0]]
+    for o in picks:
+        en = rnd.choice(["ENOSPC", "EIO", "EDQUOT", "EACCES"]) if only is None else only[1]
+        with core.Box(tag="c01f") as box:
+            cfg = proj.materialise(box)
+            r = core.run_breadlog(built, box, cfg, rules="n=%d,act=errno:%d" % (o["n"], fault.ERRNO[en]), shim=True)
+            res["evaluations"] += 1
+            if r.panicked() or r.timed_out:
+                res["inconclusive"]["run-crashed (C17's business)"] = res["inconclusive"].get("run-crashed (C17's business)", 0) + 1
+                continue
+            fired = [x for x in (r.shim or []) if x["fired"]]
+            ids = []
+            ok = True
+            rewritten = 0
+            for rel, before in proj.files.items():
+                now = box.read(rel)
+                if now == before:
+                    continue
+                t = decompose(before, now)
+                if t is None:
+                    ok = False       # C07's business
+                    break
+                rewritten += 1
+                ids += [x["id"] for x in t]
+        if not ok:
+            res["inconclusive"]["file torn by the fault (C07's business)"] = res["inconclusive"].get("file torn by the fault (C07's business)", 0) + 1
+            continue
+        res["counters"]["fault_runs"] = res["counters"].get("fault_runs", 0) + 1
+        if fired and r.rc != 0 and rewritten:
+            res["counters"]["fault_runs_failed_with_other_files_rewritten"] = res["counters"].get("fault_runs_failed_with_other_files_rewritten", 0) + 1
+            res["nontrivial"].append("fault|%s|%s|%s" % (fault.phase_of(o), en, "s" if structured else "u"))
+        clause = None
+        if len(set(ids)) != len(ids):
+            clause = "duplicate-among-inserted"
+        elif set(ids) & existing:
+            clause = "collides-with-existing"
+        if clause:
+            res["violations"].append({"signature": "C01.%s|after-%s-at-%s|%s" % (clause, en, fault.phase_of(o), "structured" if structured else "unstructured"),
+                                      "detail": {"inserted_ids": sorted(ids), "existing": sorted(existing), "op": o, "exit": r.ended(),
+                                                 "stdout_tail": r.out[-300:]},
+                                      "case": {"fault": [i, o["n"], en]}})
+    return res
+
+
 def corpus_work(job):
     built, label, files = job
     res = {"evaluations": 1, "nontrivial": [], "violations": [], "samples": [], "inconclusive": {}, "counters": {}}
@@ -248,6 +328,9 @@ def corpus_work(job):
 def replay_witness(w, ck=None, built=None):
     built = built or (ck.built if ck else None) or core.build_repo()
     c = w["case"] if "case" in w else w["first"]["case"]
+    if "fault" in c:
+        r = fault_work((built, w.get("seed", 0), c["fault"][0], (c["fault"][1], c["fault"][2])))
+        return bool(r["violations"])
     if "spec" not in c:
         return False
     seed = w.get("seed", 0)
